@@ -16,6 +16,7 @@ type rnode struct {
 	name     string // element name
 	calls    []*callSpec
 	skip     string // "", "Skip", "Skipf", "SkipNow": call snaps.Skip* first
+	late     bool   // ... after the first Match* call instead (the rest of the body is skipped)
 	subs     []*rnode
 	parallel bool
 }
@@ -23,6 +24,10 @@ type rnode struct {
 func (n *rnode) steps() []*Step {
 	var out []*Step
 	if n.skip != "" {
+		if n.late && len(n.calls) > 0 {
+			c := n.calls[0]
+			out = append(out, &Step{Op: "match", API: c.api, Cfg: c.cfg, Val: c.val, X: c.x})
+		}
 		out = append(out, &Step{Op: "skip", Kind: n.skip})
 		return out
 	}
@@ -108,10 +113,11 @@ func (g *fgen) rprogram(apis, cfgs []string, maxTests, maxCalls int) *rprogram {
 
 // clone with some values changed / calls dropped / calls added (what makes entries stale)
 func (g *fgen) rmutate(n *rnode, change, drop, add float64, apis []string) *rnode {
-	m := &rnode{name: n.name, parallel: n.parallel, skip: n.skip}
+	m := &rnode{name: n.name, parallel: n.parallel, skip: n.skip, late: n.late}
 	move := g.chance(g.moveProb) // the test's snapshots move to another file: the old entries become stale
 	if g.chance(g.skipProb) {
 		m.skip = g.pick("Skip", "Skipf", "SkipNow")
+		m.late = g.chance(0.35)
 	}
 	if g.chance(g.parProb) && strings.Contains(n.name, "") {
 		m.parallel = true
